@@ -2,6 +2,8 @@ package checks
 
 import (
 	"fmt"
+
+	"github.com/akalin/gopar/par2"
 	"math/rand"
 	"os"
 	"path/filepath"
@@ -22,9 +24,9 @@ type c05Params struct {
 
 func init() {
 	register(&c05{base{
-		id:    "C05",
-		level: lvlExploration,
-		rule: "each case draws a file set (1..12 files, sizes around the slice size and around 16384, names in sub-directories, random/zero/periodic/duplicate-slice content), a slice size, a recovery-block count (1..hundreds) and a goroutine count, runs the real par2.Create on a real directory and hands EVERY file it wrote to an independent PAR2 reader that re-derives all IDs, hashes, checksums and every recovery block sum(slice_i*c_i^e) with reference arithmetic; kinds: small, many-blocks (>100 blocks, 3-digit volume names), many-slices (>256 / thousands of slices), limit (32768 slices, thorough). A key is (kind, slice size, files, blocks, goroutines, total slices)",
+		id:          "C05",
+		level:       lvlExploration,
+		rule:        "each case draws a file set (1..12 files, sizes around the slice size and around 16384, names in sub-directories, random/zero/periodic/duplicate-slice content), a slice size, a recovery-block count (1..hundreds) and a goroutine count, runs the real par2.Create on a real directory and hands EVERY file it wrote to an independent PAR2 reader that re-derives all IDs, hashes, checksums and every recovery block sum(slice_i*c_i^e) with reference arithmetic; kinds: small, many-blocks (>100 blocks, 3-digit volume names), many-slices (>256 / thousands of slices), limit (32768 slices, thorough). A key is (kind, slice size, files, blocks, goroutines, total slices)",
 		assumptions: append([]string{"file ID input is (16k hash, length, name without NUL padding), the reading par2cmdline implements"}, commonAssumptions...),
 		opts:        core.WorkerOpts{CrashIsViolation: true, WallSeconds: 2400},
 	}})
@@ -44,6 +46,9 @@ func (c *c05) Cases(tier string, seed int64) []core.Case {
 		cs = append(cs, core.MkCase(fmt.Sprintf("many-slices-%d", i), c05Params{r.Int63()&^(0xffff<<8) | int64(i)<<8, "many-slices"}))
 	}
 	cs = append(cs, core.MkCase("near-16k", c05Params{r.Int63(), "near-16k"}))
+	for i := 0; i < map[string]int{"quick": 3, "thorough": 30}[tier]; i++ {
+		cs = append(cs, core.MkCase(fmt.Sprintf("many-slices-and-blocks-%d", i), c05Params{r.Int63(), "many-both"}))
+	}
 	if tier == "thorough" {
 		cs = append(cs, core.MkCase("limit-32768-slices", c05Params{r.Int63(), "limit"}))
 		cs = append(cs, core.MkCase("limit-32769-slices", c05Params{r.Int63(), "over-limit"}))
@@ -85,6 +90,17 @@ func (c *c05) Run(cs core.Case) core.Result {
 			}
 			set.Files = append(set.Files, scen.File{Name: scen.GenName(rng, i, true, true), Data: scen.GenData(rng, "random", n, slice)})
 		}
+	case "many-both":
+		// hundreds of slices x about a hundred blocks with slices short enough
+		// for the scalar kernels: a large sample of coefficients c_i^e
+		slice := []int{4, 8, 12, 20, 28}[rng.Intn(5)]
+		set = scen.Set{SliceSize: slice, Blocks: 76 + rng.Intn(70), Content: "random"}
+		total := 153 + rng.Intn(250)
+		nf := 1 + rng.Intn(3)
+		for i := 0; i < nf; i++ {
+			n := total*slice/nf - rng.Intn(slice)
+			set.Files = append(set.Files, scen.File{Name: scen.GenName(rng, i, true, true), Data: scen.GenData(rng, "random", n, slice)})
+		}
 	case "near-16k":
 		set = scen.Set{SliceSize: 2000, Blocks: 2, Content: "random"}
 		for i, n := range []int{16383, 16384, 16385, 16380, 32768} {
@@ -99,7 +115,26 @@ func (c *c05) Run(cs core.Case) core.Result {
 		set.Files = append(set.Files, scen.File{Name: "big.bin", Data: scen.GenData(rng, "random", n*4-1, 4)})
 		g = 16
 	}
+	// History: every fourth case re-creates over an older archive of the same
+	// name whose files are longer (what an earlier Create with a smaller slice
+	// size or more blocks leaves behind).
+	p2PreCreate = nil
+	var preSnap map[string]string
+	if p.Seed%4 == 1 && p.Kind != "limit" && p.Kind != "over-limit" {
+		p2PreCreate = func(dir, idx string, paths []string) {
+			older := set.SliceSize / 2
+			if older < 4 || older%4 != 0 {
+				older = 4
+			}
+			if older == set.SliceSize {
+				older = set.SliceSize + 4
+			}
+			par2.Create(idx, paths, par2.CreateOptions{SliceByteCount: older, NumParityShards: set.Blocks + 3, NumGoroutines: 2})
+			preSnap = scen.Snapshot(dir)
+		}
+	}
 	env, err := newP2Env(set, "out", g)
+	p2PreCreate = nil
 	if env != nil {
 		defer env.close()
 	}
@@ -123,6 +158,14 @@ func (c *c05) Run(cs core.Case) core.Result {
 	}
 	filepath.Walk(env.dir, func(pth string, info os.FileInfo, err error) error {
 		if err == nil && info.Mode().IsRegular() && !inputs[pth] {
+			if preSnap != nil {
+				// leftovers of the older archive that the Create under test did
+				// not write are not its output
+				rel, _ := filepath.Rel(env.dir, pth)
+				if cur := scen.Snapshot(env.dir)[rel]; cur == preSnap[rel] {
+					return nil
+				}
+			}
 			b, _ := os.ReadFile(pth)
 			created = append(created, par2rw.CreatedFile{Name: filepath.Base(pth), Data: b})
 		}
